@@ -112,3 +112,17 @@ Example C13_dominator_worklist_example :
   find_dominators nodes (entries nodes preds) preds succs 40 =
     WOk [(1, [1]); (2, [1; 2]); (3, [1; 2; 3])]%Z [(3, false); (2, true); (3, false)]%Z.
 Proof. vm_compute. reflexivity. Qed.
+
+(* is_reachable_dfs itself (Model/Dfs.v: the to_visit stack and the seen set, line by line; the C13 check
+   compares its answers with the implementation's on every query): on EVERY graph, with the fuel the
+   model computes, it returns and decides "a path of at least one edge"; None = KeyError for a begin
+   that is no block *)
+From V Require Import Model.Dfs.
+Theorem C13_reachability_dfs :
+  forall g a b,
+    match reach_dfs g a b with
+    | None => gfind g a = None
+    | Some r => exists v, r = Some v /\ (v = true <-> PathGe1 g a b)
+    end.
+Proof. exact reach_dfs_spec. Qed.
+Print Assumptions C13_reachability_dfs.
